@@ -206,3 +206,97 @@ def run_a(prog, res, floor=40):
                                          "element index" if scaled else "byte offset", need, ", ".join(have) or "nothing"),
                                         unit=u.display))
     return stat
+
+
+# ------------------------------------------------------------------ C19.f: JSON string escapes, writer vs reader
+JSON_MUST_ESCAPE = {0x22: '"', 0x5C: "\\"}       # a raw quote ends the string, a raw backslash starts an escape
+
+
+def _case_arms(fn, sw):
+    """(case value, blocks of the arm up to its break)"""
+    for s in sw.succs:
+        if s is None or s < 0:
+            continue
+        sb = fn.blocks[s]
+        if sb.lk != "case" or sb.clo is None or sb.chi not in (None, sb.clo):
+            continue
+        seen, st = [], [s]
+        while st:
+            bid = st.pop()
+            if bid in seen or len(seen) > 12:
+                continue
+            seen.append(bid)
+            bb = fn.blocks[bid]
+            if bb.term == "BreakStmt":
+                continue
+            for nx in bb.succs:
+                if nx is not None and nx >= 0 and fn.blocks[nx].lk not in ("case", "default"):
+                    st.append(nx)
+        yield sb.clo, [fn.blocks[b] for b in seen]
+
+
+def json_escape_tables(prog):
+    from extract import AnalysisBroken
+    w = prog.func("json_write_string")
+    r = prog.func("json_read_string")
+    if w is None or r is None:
+        raise AnalysisBroken("anchor vanished: json_write_string / json_read_string")
+    writer, reader = {}, {}
+    wline = rline = None
+    for sw in [b for b in w.blocks.values() if b.term == "SwitchStmt"]:
+        cand = {}
+        for val, blocks in _case_arms(w, sw):
+            for bb in blocks:
+                for e in bb.elems:
+                    nd = w.nodes[e]
+                    if nd["k"] == "str" and len(nd.get("s", "")) == 2 and nd["s"][0] == "\\":
+                        cand[val & 0xFF] = nd["s"][1]
+        if len(cand) > len(writer):
+            writer, wline = cand, sw.line
+    for sw in [b for b in r.blocks.values() if b.term == "SwitchStmt"]:
+        cand = {}
+        for val, blocks in _case_arms(r, sw):
+            for bb in blocks:
+                for e in bb.elems:
+                    nd = r.nodes[e]
+                    # buf[i++] = '<c>'
+                    if nd["k"] == "bin" and nd["o"] == "=" and r.nodes[r.strip(nd["c"][0])]["k"] == "idx":
+                        v = r.const_val(nd["c"][1])
+                        if v is not None:
+                            cand[chr(val)] = v & 0xFF
+        if len(cand) > len(reader):
+            reader, rline = cand, sw.line
+    if len(writer) < 3 or len(reader) < 2:
+        raise AnalysisBroken("anchor vanished: the escape switches of json_write_string / json_read_string")
+    return writer, reader, w, r, wline, rline
+
+
+def run_f(prog, res, floor=4):
+    """every escape letter the JSON writer emits is decoded by the reader to the character it stood for (the
+    reader's default arm copies the letter itself, which is right only for the quote, the backslash and the
+    slash), and the writer escapes the two characters that cannot appear raw inside a JSON string"""
+    stat = res.stat("C19.f", "JSON string escapes: reader(writer(c)) = c for every escaped character; quote and backslash are escaped",
+                    floor=floor)
+    writer, reader, w, r, wline, rline = json_escape_tables(prog)
+    for code, letter in sorted(writer.items()):
+        stat.sites += 1
+        stat.obligations += 1
+        back = reader.get(letter, ord(letter))      # default arm: the letter stands for itself
+        if back == code:
+            stat.discharged += 1
+        else:
+            res.add(Finding("C19", "C19.f.escape-not-inverted", "json_read_string", "\\%s" % letter, "lib/chibi/json.c:%d" % rline,
+                            "the JSON writer emits \\%s for the character %d, but the reader decodes \\%s as %d (%r): "
+                            "a string containing that character does not survive json->string / string->json"
+                            % (letter, code, letter, back, chr(back)), unit=r.unit.display))
+    for code, ch in sorted(JSON_MUST_ESCAPE.items()):
+        stat.sites += 1
+        stat.obligations += 1
+        if code in writer:
+            stat.discharged += 1
+        else:
+            res.add(Finding("C19", "C19.f.raw-%s" % ("quote" if code == 0x22 else "backslash"), "json_write_string", "character %d" % code,
+                            "lib/chibi/json.c:%d" % wline,
+                            "the JSON writer copies the character %r into the string literal unescaped: the text it emits is "
+                            "not the JSON encoding of the string (a quote ends the literal early)" % ch, unit=w.unit.display))
+    return stat
